@@ -45,13 +45,13 @@ PROPS = {
         'partial': "the false-positive-rate clause is decided by the structural theorems (bits are addressed injectively, add sets exactly the probe positions, contains checks exactly them, the array is the smallest power of two >= the design size) plus a deterministic measurement on the implementation with well-mixed hashes (alarm threshold 10 p + 0.01); a probabilistic theorem about seahash is out of reach",
     },
     'C03': {
-        'suites': [('cacheq', 300, 3000, ''), ('cachet', 150, 1500, ''), ('cacheqa', 100, 1000, '')],
+        'suites': [('cacheq', 300, 3000, ''), ('cachet', 150, 1500, ''), ('cacheqa', 100, 1000, ''), ('cacher', 150, 1500, '')],
         'rule': CACHE_RULE % "Cache and AsyncCache" + "TTLs from {1 ns, 0.5 s, 999 999 999 ns, 1 s, 1 s + 1 ns, 1.5 s, 2.3 s, 59 s, 1 h}, clock advances that land on and around second boundaries, re-inserts switching TTL <-> none, neighbours sharing expiry seconds; monitors: nothing served at or after created+ttl, get_ttl = remaining, no-TTL entries always served; non-trivial = every case (>= 20 operations with quiescence between them)",
         'assumptions': COMMON_ASSUMPTIONS + ["the clock is monotone (elapsed().unwrap() panics otherwise; modelled as StepPanic)", "created + d < 2^64 ns"],
         'partial': "",
     },
     'C05': {
-        'suites': [('cacheq', 300, 3000, ''), ('cachet', 150, 1500, ''), ('cacheqa', 100, 1000, ''), ('ticker', 1, 1, '')],
+        'suites': [('cacheq', 300, 3000, ''), ('cachet', 150, 1500, ''), ('cacheqa', 100, 1000, ''), ('cacher', 150, 1500, ''), ('ticker', 1, 1, '')],
         'rule': CACHE_RULE % "Cache and AsyncCache" + "ticks at arbitrary (late, irregular) virtual times, expiry instants around second boundaries, neighbours in the same bucket being updated / removed / re-TTL'd; monitors: after a tick at T nothing with bucket <= T is resident, only expired entries are swept, each swept value is reported once with its charged cost",
         'assumptions': COMMON_ASSUMPTIONS + ["the real ticker (crossbeam tick / async-io Timer) firing is runtime behaviour: ticks are labels here"],
         'partial': "the real-time firing of the ticker ('plus one cleanup interval') is not modelled: ticks are labels; the listing invariant and the reclamation theorems are proved for collision-free runs (every conflict hash 0); an item written before a cleanup, already due at it and admitted only afterwards is reclaimed by the next cleanup (hypothesis no_stale_admission of C05_listings_stay_later_than_the_last_cleanup)",
@@ -75,10 +75,10 @@ PROPS = {
         'partial': "",
     },
     'C12': {
-        'suites': [('caches', 400, 4000, ''), ('cachesa', 200, 2000, ''), ('cachel', 300, 3000, ''), ('cachecfg', 100, 1000, '')],
+        'suites': [('caches', 400, 4000, ''), ('cachesa', 200, 2000, ''), ('cachel', 300, 3000, ''), ('cachecfg', 100, 1000, ''), ('defaults', 1, 1, '')],
         'rule': CACHE_RULE % "Cache and AsyncCache" + "close() racing other operations and other close() calls; monitors: after close() returned Ok every operation that begins is inert and leaves the snapshot unchanged, both workers have left their loops, no client is stuck",
         'assumptions': COMMON_ASSUMPTIONS,
-        'partial': "async flavour: close() returns once the stop message is buffered; that the processor then takes it needs fairness of select! (the theorem is: exited or the stop message is pending); OS thread exit and the exit of workers when every handle is dropped without close() are runtime behaviour (observed by the harness), not theorems",
+        'partial': "async flavour: close() returns once the stop message is buffered; that the processor then takes it needs fairness of select! (the theorem is: exited or the stop message is pending); OS thread exit and the exit of workers when every handle is dropped without close() are runtime behaviour (observed by the harness: suite defaults drops every handle of both flavours without close() and waits for both workers' exit notes), not theorems",
     },
     'C16': {
         'suites': [('cachet', 400, 4000, ''), ('cacheqa', 150, 1500, ''), ('defaults', 1, 1, '')],
